@@ -1,6 +1,7 @@
 import json, sys
 pid = sys.argv[1]
 n = sys.argv[2] if len(sys.argv) > 2 else '1'
+avoid = sys.argv[3] if len(sys.argv) > 3 else ''
 for l in open('/verif/properties.jsonl'):
     p = json.loads(l)
     if p['id'] == pid:
@@ -19,6 +20,8 @@ It is meant to hold for: {p['quantifier']['text']}
 Your task: make ONE small, realistic change to the library source (not the tests) that breaks this property while
  (a) the package still imports, and the existing test suite still passes completely: cd {wt} && PYTHONPATH={wt}/src /venv/bin/python -m pytest -q -p no:cacheprovider --timeout=900 -x -q  (takes ~5 minutes; 475 tests must pass), and
  (b) the breakage needs something SPECIFIC to manifest - a particular size/length boundary, an unusual but valid input, a multi-step sequence of operations, a particular combination of options, or two cooperating sites that each look fine alone - NOT something ordinary use would expose at once. Think of the kind of off-by-one, wrong-comparison, stale-cache, missed-branch or boundary mistakes a maintainer could plausibly make in a refactoring or "optimisation".
+
+{("Another engineer has already produced a mutation in src/dliswriter/" + avoid + " - choose a DIFFERENT file, or at least a clearly different function and mechanism, so that the two mutations are unrelated.") if avoid else ""}
 
 Deliver, inside {wt}:
  1. the change itself, left UNCOMMITTED in the worktree (I will collect it with `git diff`);
